@@ -6,6 +6,7 @@ import (
 	"fmt"
 	"go/token"
 	"go/types"
+	"os"
 	"runtime"
 	"runtime/debug"
 	"strings"
@@ -13,6 +14,9 @@ import (
 
 	"golang.org/x/tools/go/ssa"
 )
+
+// panicTrace (env GOSYM_PANIC_TRACE=1): print every frame a target panic unwinds through.
+var panicTrace = os.Getenv("GOSYM_PANIC_TRACE") != ""
 
 // engineError: something the engine cannot model was reached on this path.
 type engineError struct{ msg string }
@@ -551,7 +555,7 @@ func (m *machine) pos(p token.Pos) string {
 }
 
 func (m *machine) callSSA(caller *frame, callpos token.Pos, fn *ssa.Function, args []value, env []value) value {
-	name := fn.String()
+	name := cachedFuncName(fn) // fn.String() re-renders the type string on every call (20% of run time)
 	if fn.Parent() == nil || fn.Synthetic != "" {
 		if st, ok := m.stubs[name]; ok && !m.inStub[name] {
 			m.inStub[name] = true
@@ -637,6 +641,9 @@ func (m *machine) runFrame(fr *frame) {
 				panic(engineError{fmt.Sprintf("engine fault in %s at %s: %v\n%s", fr.fn, m.curPos(fr), re, debug.Stack())})
 			}
 			panic(r)
+		}
+		if panicTrace {
+			fmt.Fprintf(os.Stderr, "panic-trace: %v unwinds %s at %s\n", r.(targetPanic).String(), fr.fn, m.curPos(fr))
 		}
 		fr.panicking = true
 		fr.panic = r
